@@ -158,7 +158,9 @@ RefLayout(prog) == Widen(prog, [k \in DOMAIN prog |-> 0], 12)
 \* what the property demands of the outcome for this program
 Must(prog) == IF DupAt(prog) # {} \/ UndefAt(prog) # {} THEN "reject"
               ELSE LET r == RefLayout(prog) IN
-                   IF r.must = "reject" THEN "reject" ELSE IF ~Plain(prog) THEN "either" ELSE r.must
+                   IF r.must = "reject" THEN "reject" ELSE IF ~Plain(prog) THEN "either"
+                   ELSE IF \E k \in DOMAIN prog : r.addrs[k] + r.sizes[k] > 65536 THEN "either"      \* runs past the 64 KiB address space
+                   ELSE r.must
 
 \* ------------------------------------------------------------------ class lattice of a statement
 SrcOfTerm(prog, k, t) == IF t.k = "num" THEN "lit" ELSE IF t.k # "sym" THEN "none"
@@ -236,7 +238,7 @@ JudgeRejected(t) ==
       m == Must(prog)
       r == RefLayout(prog)
       env == EnvOf(prog, r.addrs)
-      dk == IF t.diag_k \in DOMAIN prog THEN t.diag_k ELSE 0
+      dk == IF t.diag_k \in DOMAIN prog THEN t.diag_k ELSE IF t.focus \in DOMAIN prog THEN t.focus ELSE 0     \* the statement the diagnostic names, else the one under test
       cls == IF dk = 0 THEN NoClass ELSE ClassOf(prog, env, dk)
   IN   (IF m = "accept" THEN {Item("accepted", dk, cls, NoSym)} ELSE {})
 
@@ -244,7 +246,7 @@ Judge(t) ==
   LET okout == t.outcome \in {"ok", "parse", "translation"}
       dk == IF t.diag_k \in DOMAIN t.prog THEN t.diag_k ELSE 0
       base == IF t.outcome = "ok" THEN JudgeAccepted(t)
-              ELSE IF t.outcome \in {"parse", "translation"} THEN JudgeRejected(t)
+              ELSE IF t.outcome \in {"parse", "translation", "internal", "timeout"} THEN JudgeRejected(t)     \* not accepted, whatever the way
               ELSE {}
       extra == (IF ~okout THEN {Item("outcome", dk, NoClass, [NoSym EXCEPT !.why = t.outcome])} ELSE {})
                \cup (IF t.outcome \in {"parse", "translation"} /\ ~t.diag_named THEN {Item("diagnames", dk, NoClass, NoSym)} ELSE {})
